@@ -229,6 +229,256 @@ pub fn random(count: usize, len: usize, seed: u64) -> Vec<Program> {
     out
 }
 
+/// uniform histories (C10): one alignment (<= 16, >= MIN_ALIGN), sizes that are multiples of it;
+/// chunk crossings, capacities, reset-and-refill, failed initialisers (in-chunk and new-chunk)
+/// and failed slice fills in between; iteration at several points.
+pub fn uniform(thorough: bool) -> Vec<Program> {
+    let mut out = Vec::new();
+    for &align in &[1usize, 2, 4, 8, 16] {
+        for &ma in MAS.iter().filter(|&&m| m <= align) {
+            for &k in &[1usize, 2, 3, 5] {
+                let size = k * align;
+                // element type of the failing slice fill: its alignment must equal `align`
+                let fill_ty: u8 = match align { 1 => 1, 2 => 2, 4 => 3, 8 => 4, _ => 5 };
+                let a = || l(size, align);
+                let many = |n: usize| -> Vec<Op> { (0..n).map(|_| l(size, align)).collect() };
+                let fail_fill_small = Op::TryFill { ty: fill_ty, len: 3, fail_at: 1, iter: false };
+                let fail_fill_big = Op::TryFill { ty: fill_ty, len: 600 / align.max(1) + 7, fail_at: 2, iter: true };
+                let starts: Vec<Op> = vec![Op::New { cap: None, fallible: false }, Op::New { cap: Some(size * 7), fallible: false }, Op::New { cap: Some(1), fallible: true }];
+                for (si, st) in starts.iter().enumerate() {
+                    if !thorough && (si + k + align) % 2 == 0 {
+                        continue;
+                    }
+                    let fill_chunk = 448 / size + 2; // crosses the first chunk
+                    let mut variants: Vec<Vec<Op>> = Vec::new();
+                    variants.push([vec![st.clone()], many(3), vec![Op::Iter], many(fill_chunk), vec![Op::Iter]].concat());
+                    variants.push([vec![st.clone()], many(fill_chunk), vec![Op::Iter, Op::Reset, Op::Iter], many(4), vec![Op::Iter]].concat());
+                    variants.push([vec![st.clone()], many(2), vec![fail_fill_small.clone(), Op::Iter, a(), fail_fill_big.clone(), Op::Iter], many(3), vec![Op::Iter]].concat());
+                    // failed fill that forced a new chunk, then reset, then refill
+                    variants.push([vec![st.clone()], many(448 / size - 1), vec![fail_fill_big.clone(), Op::Iter, Op::Reset, Op::Iter], many(3), vec![Op::Iter]].concat());
+                    variants.push([vec![st.clone()], many(2), vec![fail_fill_big.clone(), Op::Reset], many(2), vec![Op::Iter, Op::Reset, Op::Reset, Op::Iter]].concat());
+                    if align == 8 {
+                        // Result<u64, ErrTok<u64>> has size 16, align 8: a failed alloc_try_with fits a uniform align-8 history
+                        let tw = Op::TryWith { ty: 4, ety: 2, ok: false, clos: Clos::Nothing, fallible: false };
+                        let twbig = Op::TryWith { ty: 10, ety: 2, ok: false, clos: Clos::Nothing, fallible: true };
+                        variants.push([vec![st.clone()], many(2), vec![tw.clone(), Op::Iter], many(448 / size), vec![tw.clone(), Op::Iter]].concat());
+                        if size % 8 == 0 {
+                            variants.push([vec![st.clone()], many(3), vec![twbig.clone(), Op::Iter, Op::Reset, Op::Iter], many(2), vec![Op::Iter]].concat());
+                        }
+                    }
+                    for ops in variants {
+                        out.push(Program { ma, ops, tag: "uniform".into() });
+                    }
+                }
+            }
+        }
+    }
+    out
+}
+
+/// fault enumerator (C09, C03): short histories re-run with every refusal pattern of the global
+/// allocator (the k-th request only, everything from the k-th on, everything of at least s bytes)
+pub fn fault(thorough: bool, seed: u64) -> Vec<Program> {
+    use Op::*;
+    let mut rng = StdRng::seed_from_u64(seed ^ 0xFA17);
+    let bodies: Vec<Vec<Op>> = vec![
+        vec![l(8, 8), l(600, 1), l(5000, 16), l(1, 1)],
+        vec![l(0, 64), l(0, 1), l(100, 4)],
+        vec![li(17, 1), li(1000, 2)],
+        vec![l(8, 8), Grow { b: usize::MAX, size: 600, align: 8, zeroed: true }, Shrink { b: usize::MAX, size: 3, align: 64 }],
+        vec![l(3, 2), TryWith { ty: 10, ety: 2, ok: false, clos: Clos::Nothing, fallible: true }, Again],
+        vec![l(3, 2), TryWith { ty: 4, ety: 2, ok: true, clos: Clos::Keep(600), fallible: true }, l(1, 1)],
+        vec![l(440, 1), TryFill { ty: 4, len: 100, fail_at: 99, iter: false }, l(1, 1)],
+        vec![l(440, 1), Val { ty: 9, with: true, fallible: true }, SliceCopy { ty: 4, len: 100, fallible: true }],
+        vec![Limit { lim: Some(10) }, l(0, 64), l(0, 32)],
+        vec![Limit { lim: Some(300) }, l(0, 4096), l(1, 1), l(200, 1)],
+        vec![Limit { lim: Some(2000) }, l(600, 1), l(600, 1), Reset, l(2000, 1)],
+        vec![l(500, 1), Reset, l(500, 1), l(500, 1), Iter],
+        vec![Fill { ty: 4, len: 100, how: 0, fallible: true }, Str { len: 700, fallible: true }, Allocate { size: 4000, align: 32, zeroed: true }],
+    ];
+    let starts = vec![New { cap: None, fallible: false }, New { cap: Some(300), fallible: true }];
+    let mut out = Vec::new();
+    for (bi, body) in bodies.iter().enumerate() {
+        for st in &starts {
+            for &ma in &MAS {
+                if !thorough && (bi + ma) % 2 == 1 {
+                    continue;
+                }
+                let mut pats: Vec<(u8, usize)> = vec![(4, 0)];
+                for k in 0..6 {
+                    pats.push((1, k));
+                    pats.push((2, k));
+                }
+                for s in [64usize, 500, 600, 1100, 4096] {
+                    pats.push((3, s));
+                }
+                for (kind, k) in pats {
+                    // the fault policy is armed after the constructor (its own failures are covered by fault-ctor below)
+                    let mut ops = vec![st.clone(), Fault { kind, k }];
+                    ops.extend(body.iter().cloned());
+                    ops.push(Fault { kind: 0, k: 0 });
+                    ops.push(l(1, 1));
+                    out.push(Program { ma, ops, tag: "fault".into() });
+                }
+            }
+        }
+    }
+    // constructors under refusal
+    for &ma in &MAS {
+        for cap in [1usize, 448, 449, 5000, 70000] {
+            for fallible in [true, false] {
+                out.push(Program { ma, ops: vec![Fault { kind: 4, k: 0 }, New { cap: Some(cap), fallible }, Fault { kind: 0, k: 0 }], tag: "fault-ctor".into() });
+            }
+        }
+    }
+    // random placement of a single refusal in random programs
+    let alpha = alphabet();
+    for i in 0..if thorough { 3000 } else { 300 } {
+        let mut ops = vec![New { cap: None, fallible: false }];
+        let n = rng.gen_range(3..12);
+        let at = rng.gen_range(0..n);
+        for j in 0..n {
+            if j == at {
+                ops.push(Fault { kind: rng.gen_range(1..5), k: rng.gen_range(0..3) });
+            }
+            ops.push(rand_op(&mut rng, &alpha));
+        }
+        out.push(Program { ma: MAS[i % 5], ops, tag: "fault-random".into() });
+    }
+    out
+}
+
+/// limit enumerator (C07): limits around what is held and around chunk sizes, in every kind of state
+pub fn limit(thorough: bool) -> Vec<Program> {
+    use Op::*;
+    let mut out = Vec::new();
+    let states: Vec<Vec<Op>> = vec![
+        vec![New { cap: None, fallible: false }],
+        vec![New { cap: Some(449), fallible: false }],
+        vec![New { cap: None, fallible: false }, l(100, 1), l(1000, 1)],
+        vec![New { cap: None, fallible: false }, l(100, 1), l(1000, 1), Reset],
+        vec![New { cap: Some(8192), fallible: true }],
+    ];
+    // usable bytes held in those states: 0, 960, 448+1984=2432, 1984, 12224
+    let held = [0usize, 960, 2432, 1984, 12224];
+    for (si, st) in states.iter().enumerate() {
+        let h = held[si];
+        let mut lims: Vec<usize> = vec![0, 1, 63, 64, 447, 448, 449, 511, 512];
+        for d in [1usize, 48, 449, 4096] {
+            lims.push(h.saturating_sub(d));
+            lims.push(h + d);
+        }
+        lims.push(h);
+        lims.push(h + 2 * h.max(448));
+        lims.push(h + 2 * h.max(448) - 1);
+        lims.sort();
+        lims.dedup();
+        for &lim in &lims {
+            for &ma in &MAS {
+                if !thorough && (lim + ma + si) % 3 != 0 {
+                    continue;
+                }
+                for &(sz, al) in &[(1usize, 1usize), (8, 8), (400, 1), (449, 1), (2000, 8), (5000, 16), (0, 64)] {
+                    let mut ops = st.clone();
+                    ops.push(Limit { lim: Some(lim) });
+                    ops.push(l(sz, al));
+                    ops.push(l(sz, al));
+                    ops.push(Limit { lim: None });
+                    ops.push(l(sz, al));
+                    ops.push(Limit { lim: Some(lim) });
+                    ops.push(FillCap { parts: 2 });
+                    ops.push(l(1, 1));
+                    out.push(Program { ma, ops, tag: "limit".into() });
+                }
+            }
+        }
+    }
+    out
+}
+
+/// try-with enumerator (C11): remaining capacity around the slot size x value/error sizes x closure kinds
+pub fn trywith(thorough: bool) -> Vec<Program> {
+    use Op::*;
+    let mut out = Vec::new();
+    // (ty, ety): Result slot sizes 1(ZST), 16, ~2008, ~5008
+    let tys: Vec<(u8, u8)> = vec![(0, 0), (4, 2), (1, 2), (10, 2), (11, 3), (9, 5)];
+    let closs = vec![Clos::Nothing, Clos::Keep(10), Clos::Release(10), Clos::Zst, Clos::Keep(600)];
+    for &ma in &MAS {
+        for (ti, &(ty, ety)) in tys.iter().enumerate() {
+            for (ci, clos) in closs.iter().enumerate() {
+                // leave `rem` bytes in the first chunk (448 usable) before the call
+                for rem in [448usize, 40, 24, 17, 16, 15, 8, 1, 0] {
+                    if !thorough && (rem + ti + ci + ma) % 3 != 0 {
+                        continue;
+                    }
+                    for ok in [false, true] {
+                        for fallible in [false, true] {
+                            if !thorough && ok && fallible {
+                                continue;
+                            }
+                            let mut ops = vec![New { cap: None, fallible: false }];
+                            if rem < 448 {
+                                ops.push(l(448 - rem, 1));
+                            }
+                            ops.push(TryWith { ty, ety, ok, clos: clos.clone(), fallible });
+                            ops.push(Again);
+                            ops.push(TryWith { ty, ety, ok: false, clos: Clos::Nothing, fallible });
+                            ops.push(Again);
+                            ops.push(Iter);
+                            out.push(Program { ma, ops, tag: "trywith".into() });
+                        }
+                    }
+                }
+            }
+        }
+        for rem in [448usize, 100, 25, 24, 23, 0] {
+            for (ty, len, fail_at) in [(3u8, 6usize, 2i64), (4, 100, 99), (1, 30, 0), (0, 5, 3), (5, 2, 1)] {
+                for iter in [false, true] {
+                    let mut ops = vec![New { cap: None, fallible: false }];
+                    if rem < 448 {
+                        ops.push(l(448 - rem, 1));
+                    }
+                    ops.push(TryFill { ty, len, fail_at, iter });
+                    ops.push(Again);
+                    ops.push(Iter);
+                    out.push(Program { ma, ops, tag: "tryfill".into() });
+                }
+            }
+        }
+    }
+    out
+}
+
+/// volume workloads (C18): only chunk acquisitions are logged (Bulk)
+pub fn volume(thorough: bool) -> Vec<Program> {
+    use Op::*;
+    let mut out = Vec::new();
+    let totals: Vec<usize> = if thorough { vec![1 << 10, 1 << 16, 1 << 20, 1 << 24, 1 << 26, 1 << 28] } else { vec![1 << 10, 1 << 16, 1 << 20, 1 << 23, 1 << 26] };
+    for &ma in &MAS {
+        for &(size, align) in &[(1usize, 1usize), (8, 8), (24, 8), (100, 4), (1000, 8), (5000, 16), (70000, 1)] {
+            for &total in &totals {
+                if total / size.max(1) > if thorough { 3_000_000 } else { 300_000 } {
+                    continue;
+                }
+                if !thorough && (ma + size + total) % 2 == 1 && total < (1 << 24) {
+                    continue;
+                }
+                let count = (total / size).max(1);
+                for cap in [None, Some(4096usize)] {
+                    out.push(Program { ma, ops: vec![New { cap, fallible: false }, Bulk { size, align, count }], tag: "volume".into() });
+                }
+            }
+        }
+        // capacities honoured
+        for cap in [1usize, 447, 448, 449, 4031, 4032, 4033, 1 << 20] {
+            out.push(Program { ma, ops: vec![New { cap: Some(cap), fallible: false }, FillCap { parts: 1 }, New { cap: Some(cap), fallible: true }, FillCap { parts: 3 }], tag: "capacity".into() });
+        }
+        // a one-off big block, then small ones: the next chunk must not be smaller
+        out.push(Program { ma, ops: vec![New { cap: None, fallible: false }, l(8 << 20, 8), Bulk { size: 1024, align: 8, count: 9000 }], tag: "volume".into() });
+    }
+    out
+}
+
 pub fn by_name(name: &str, tier: &str, seed: u64) -> Vec<Program> {
     let thorough = tier == "thorough";
     match name {
@@ -244,6 +494,11 @@ pub fn by_name(name: &str, tier: &str, seed: u64) -> Vec<Program> {
             v
         }
         "offset" => offset(thorough),
+        "uniform" => uniform(thorough),
+        "fault" => fault(thorough, seed),
+        "limit" => limit(thorough),
+        "trywith" => trywith(thorough),
+        "volume" => volume(thorough),
         "random" => random(if thorough { 4000 } else { 300 }, if thorough { 200 } else { 120 }, seed),
         _ => panic!("unknown generator {name}"),
     }
